@@ -662,6 +662,14 @@ def dropout_pool(which):
                            (3, 1, 'SAME')]:
         cases.append(('avg_pool %d/%d/%s' % (win, st, pad), nn.avg_pool(
             R(x), (win,), (st,), pad), ref_pool(x, win, st, pad, 'avg')))
+        # count_include_pad=False: divide by the number of real (unpadded) inputs
+        gotn = nn.avg_pool(R(x), (win,), (st,), pad, count_include_pad=False)
+        sums = ref_pool(x, win, st, pad, 'avg') * win
+        ones = ref_pool(symnp.JNP.ones((1, 5, 1)), win, st, pad, 'avg') * win
+        wantn = A([sums.at(i) / ones.at((i[0], i[1], 0)) for i in idxs(sums.shape)],
+                  sums.shape)
+        cases.append(('avg_pool no-pad-count %d/%d/%s' % (win, st, pad), gotn,
+                      wantn))
         cases.append(('max_pool %d/%d/%s' % (win, st, pad), nn.max_pool(
             R(x), (win,), (st,), pad), ref_pool(x, win, st, pad, 'max')))
         cases.append(('min_pool %d/%d/%s' % (win, st, pad), nn.pooling.min_pool(
